@@ -88,7 +88,7 @@ def spec_violations(ctx, what):
     """for outcome-fixing properties the proved model is the specification:
     a disagreement on an in-scope input is a failing input of the property"""
     for (c, f, i, m) in ctx.mismatches:
-        if f in ('model-observation', 'impl-observation', 'exception'):
+        if f in ('model-observation', 'impl-observation', 'exception') or c.kind in ('kernel', 'src', 'harness'):
             continue
         ctx.violation('%s: implementation %s=%s, specification (proved model) %s=%s' % (what, f, i, f, m), [c])
 
